@@ -83,6 +83,19 @@ pub struct MissingFieldError {
 }
 
 #[derive(Debug, thiserror::Error, miette::Diagnostic, PartialEq, Eq, Clone)]
+#[error("type {ty} has no such property")]
+#[diagnostic(code(tx3::invalid_property))]
+pub struct InvalidPropertyError {
+    pub ty: String,
+
+    #[source_code]
+    src: Option<String>,
+
+    #[label]
+    span: Span,
+}
+
+#[derive(Debug, thiserror::Error, miette::Diagnostic, PartialEq, Eq, Clone)]
 #[error("optional output ({name}) cannot have a datum")]
 #[diagnostic(code(tx3::optional_output_datum))]
 pub struct OptionalOutputError {
@@ -163,6 +176,10 @@ pub enum Error {
     #[error(transparent)]
     #[diagnostic(transparent)]
     MissingField(#[from] MissingFieldError),
+
+    #[error(transparent)]
+    #[diagnostic(transparent)]
+    InvalidProperty(#[from] InvalidPropertyError),
 }
 
 impl Error {
@@ -176,6 +193,7 @@ impl Error {
             Self::InvalidOptionalOutput(x) => &x.span,
             Self::InvalidArgumentCount(x) => &x.span,
             Self::MissingField(x) => &x.span,
+            Self::InvalidProperty(x) => &x.span,
             _ => &Span::DUMMY,
         }
     }
@@ -777,6 +795,7 @@ impl Analyzable for DataExpr {
                         | Symbol::TypeDef(_)
                         | Symbol::AliasDef(_)
                         | Symbol::VariantCase(_)
+                        | Symbol::RecordField(_)
                         | Symbol::Function(_)),
                     ) => report + Error::invalid_symbol("value", symbol, x).into(),
                     _ => report,
@@ -889,9 +908,31 @@ impl Analyzable for PropertyOp {
 
         self.scope = Some(Rc::new(scope));
 
-        let path = self.property.analyze(self.scope.clone());
+        // a field name isn't a value, it's only looked up on the type of the operand
+        let path = match self.property.as_mut() {
+            DataExpr::Identifier(x) => x.analyze(self.scope.clone()),
+            x => x.analyze(self.scope.clone()),
+        };
 
-        object + path
+        // the access has to be one that the type of the operand offers
+        let offered = self
+            .operand
+            .target_type()
+            .and_then(|ty| ty.property_index(*self.property.clone()));
+
+        let access = if object.is_empty() && path.is_empty() && offered.is_none() {
+            let ty = self.operand.target_type().unwrap_or(Type::Undefined);
+
+            AnalyzeReport::from(Error::InvalidProperty(InvalidPropertyError {
+                ty: ty.to_string(),
+                src: None,
+                span: self.span.clone(),
+            }))
+        } else {
+            AnalyzeReport::default()
+        };
+
+        object + path + access
     }
 
     fn is_resolved(&self) -> bool {
